@@ -121,6 +121,10 @@ pub struct RunCfg {
     pub own_write: bool,
     pub max_rows: usize,
     pub rng_seed: u64,
+    /// call next() this many more times after it has returned None
+    pub after_none: usize,
+    /// free-form description of the configuration (driver policy, ...), recorded in the begin line
+    pub cfg_note: J,
 }
 
 /// Everything about a run that is decided before it starts.
@@ -184,8 +188,13 @@ fn iterate<D: TestDriver<Error = DrvErr>>(
             it
         }
     };
-    for _ in 0..cfg.max_rows {
+    let mut extra = cfg.after_none;
+    let mut nrows = 0;
+    while nrows < cfg.max_rows {
         let item = guarded(|| it.next());
+        if matches!(item, Ok(Some(Ok(_)))) {
+            nrows += 1;
+        }
         let rng = rng_to_spec();
         let (calls, answer) = {
             let mut l = log.borrow_mut();
@@ -200,7 +209,11 @@ fn iterate<D: TestDriver<Error = DrvErr>>(
                 json!({"k":"panic","msg":p})
             }
             Ok(None) => {
-                stop = true;
+                if extra == 0 {
+                    stop = true;
+                } else {
+                    extra -= 1;
+                }
                 json!({"k":"none"})
             }
             Ok(Some(Err(IterationError::Driver(DrvErr(id))))) => {
@@ -233,15 +246,15 @@ pub fn trace_run(prep: &Prepared, cfg: &RunCfg, policy: Policy) -> Vec<J> {
     let mut out = vec![];
     *crate::WATCH_TEXT.lock().unwrap() = prep.printed.text.clone();
     let loaded = load(&prep.printed.text, &prep.test.supplied);
-    let (tc, load_res) = match loaded {
-        Loaded::Ok(tc) => (Some(tc), json!("ok")),
-        Loaded::ParseErr(e) => (None, json!(format!("parse_err: {e}"))),
-        Loaded::BindErr(e) => (None, json!(format!("bind_err: {e}"))),
-        Loaded::Panic(p) => (None, json!(format!("panic: {p}"))),
+    let (tc, load_kind, load_res) = match loaded {
+        Loaded::Ok(tc) => (Some(tc), "ok", json!("ok")),
+        Loaded::ParseErr(e) => (None, "parse", json!(format!("parse_err: {e}"))),
+        Loaded::BindErr(e) => (None, "bind", json!(format!("bind_err: {e}"))),
+        Loaded::Panic(p) => (None, "panic", json!(format!("panic: {p}"))),
     };
     let observed = tc.as_ref().map(observed_signals).unwrap_or_default();
-    out.push(json!({"ev":"begin","run":cfg.run,"prop":cfg.prop,"load":if tc.is_some() {"ok"} else {"fail"},"load_msg":load_res,
-        "test":test_to_spec(&prep.test, &prep.printed, &observed),"own_write":cfg.own_write,
+    out.push(json!({"ev":"begin","run":cfg.run,"prop":cfg.prop,"load":load_kind,"load_msg":load_res,
+        "test":test_to_spec(&prep.test, &prep.printed, &observed),"own_write":cfg.own_write,"cfg":cfg.cfg_note,
         "text":prep.printed.text,"rng_seed":cfg.rng_seed.to_string()}));
     if let Some(tc) = tc {
         let table = driver_table(&prep.test);
